@@ -271,6 +271,56 @@ fn canon(x: &LineIntersection<f64>) -> String {
     }
 }
 
+fn degenerate(r: &mut Rng, a: &IG) -> IG {
+    fn dup(r: &mut Rng, v: &Vec<IP>) -> Vec<IP> {
+        let mut v = v.clone();
+        if v.is_empty() {
+            return v;
+        }
+        for _ in 0..r.range(1, 2) {
+            let i = r.below(v.len() as u64) as usize;
+            let p = v[i];
+            v.insert(i, p);
+        }
+        v
+    }
+    match a {
+        IG::LineString(v) => IG::LineString(dup(r, v)),
+        IG::Polygon(rings) => IG::Polygon(rings.iter().map(|x| dup(r, x)).collect()),
+        IG::MultiLineString(ms) => {
+            let mut ms: Vec<Vec<IP>> = ms.iter().map(|x| if r.chance(1, 2) { dup(r, x) } else { x.clone() }).collect();
+            if r.chance(1, 2) {
+                let i = r.below(ms.len() as u64 + 1) as usize;
+                ms.insert(i, vec![]);
+            }
+            IG::MultiLineString(ms)
+        }
+        IG::MultiPolygon(ms) => {
+            let mut ms: Vec<Vec<Vec<IP>>> = ms.iter().map(|m| m.iter().map(|x| if r.chance(1, 2) { dup(r, x) } else { x.clone() }).collect()).collect();
+            if r.chance(1, 2) {
+                let i = r.below(ms.len() as u64 + 1) as usize;
+                ms.insert(i, vec![]);
+            }
+            IG::MultiPolygon(ms)
+        }
+        IG::Collection(v) => {
+            let mut v: Vec<IG> = v.iter().map(|g| degenerate(r, g)).collect();
+            if r.chance(1, 2) {
+                let i = r.below(v.len() as u64 + 1) as usize;
+                let e = match r.below(4) {
+                    0 => IG::LineString(vec![]),
+                    1 => IG::MultiPoint(vec![]),
+                    2 => IG::Polygon(vec![]),
+                    _ => IG::Collection(vec![]),
+                };
+                v.insert(i, e);
+            }
+            IG::Collection(v)
+        }
+        o => o.clone(),
+    }
+}
+
 pub fn run(ctx: &Ctx, sh: &mut Shard) {
     for k in ctx.case_indices() {
         if sh.cases >= ctx.budget {
@@ -314,6 +364,9 @@ pub fn run(ctx: &Ctx, sh: &mut Shard) {
         if !a.valid() {
             continue;
         }
+        // the same point set written with degenerate parts: repeated consecutive coordinates (zero-length
+        // segments) and empty members — closest_point must not let such a part spoil the answer
+        let a = if r.chance(1, 3) { degenerate(&mut r, &a) } else { a };
         check_interior(sh, &a, &lat, false);
         if !a.is_empty() {
             for _ in 0..3 {
